@@ -63,6 +63,7 @@ const (
 	GDeletePending    = "g:asset_drained_and_deleted_while_its_unbondings_are_pending_then_slash"
 	GReimportWhileOut = "g:export_import_while_a_validator_with_module_stake_is_out_and_emptied"
 	GRecreateAsset    = "g:asset_with_reward_history_drained_deleted_and_whitelisted_again_with_a_warm_up"
+	GUpdateThenDecay  = "g:governance_update_repeating_the_stored_weight_then_a_scheduled_weight_change"
 )
 
 const (
@@ -209,6 +210,12 @@ var badDecs = []string{"nil", "-1", "-0.000000000000000001", "0", "1", "1.000000
 // fuzzGov perturbs a well-formed governance op: exactly one field (mode 1) or several (mode 2).
 func (g *Gen) fuzzGov(op Op) Op {
 	mode := g.intn("gov-mode", 10)
+	if op.K == KUpdate && g.pct("gov-keep-weight", 30) {
+		// repeat the stored weight (the update then "changes nothing" as far as the weight goes)
+		if a, ok := g.x.Post().Assets[op.Denom]; ok {
+			op.RW = a.RewardWeight.String()
+		}
+	}
 	if mode < 4 {
 		return op // well-formed
 	}
@@ -580,7 +587,11 @@ func (g *Gen) Step() {
 	case KUnjail:
 		x.Apply(Op{K: KUnjail, V: g.intn("v", nv)})
 	case KDonate:
-		x.Apply(Op{K: KDonate, Denom: g.anyDenom("denom"), Amt: g.freshAmount("amt")})
+		dn := g.anyDenom("denom")
+		if g.pct("donate-bond-denom", 25) {
+			dn = x.W.BondDenom // staking tokens sent to the module account are burned at the end of the block
+		}
+		x.Apply(Op{K: KDonate, Denom: dn, Amt: g.freshAmount("amt")})
 	case KNatDel:
 		x.Apply(Op{K: KNatDel, D: g.intn("nd", 2), V: g.intn("v", nv), Amt: new(big.Int).Mul(big.NewInt(int64(g.intn("m", 9)+1)), pow10(g.intn("k", 9))).String()})
 	case KNatUndel, KNatRedel:
@@ -737,6 +748,37 @@ func (g *Gen) Step() {
 			p := new(big.Int).Quo(x.Post().Vals[a].Tokens.BigInt(), big.NewInt(1_000_000)).Int64()
 			x.Apply(Op{K: KSlash, V: a, Frac: g.frac(), Power: p, Age: int64(g.intn("age", 2))})
 		}
+	case GUpdateThenDecay:
+		// an update that repeats the stored weight (so "nothing changes") but carries another range
+		// (equal / excluding the weight / swapped bounds / nil) and an active decay schedule; if the
+		// module accepts it, the next scheduled weight change must still run
+		ds := g.assetDenoms()
+		if len(ds) == 0 {
+			return
+		}
+		dn := ds[g.intn("ud-denom", len(ds))]
+		a := x.Post().Assets[dn]
+		w0 := a.RewardWeight
+		op := Op{K: KUpdate, Denom: dn, Signer: "auth", RW: w0.String(), TakeRate: a.TakeRate.String(),
+			ChRate: g.pickS("ud-chrate", []string{"0.5", "0.9", "0.99", "1.01", "2"}), ChInt: g.pickI("ud-chint", []int64{1, sec, 300 * sec, day}),
+			Legacy: g.pct("legacy", 20)}
+		switch g.intn("ud-range", 6) {
+		case 0:
+			op.RWMin, op.RWMax = w0.String(), w0.String()
+		case 1:
+			op.RWMin, op.RWMax = w0.Add(oneDec).String(), w0.Add(oneDec).Add(oneDec).String() // excludes the weight from below
+		case 2:
+			op.RWMin, op.RWMax = "0", w0.Quo(math.LegacyNewDec(2)).String() // excludes it from above
+		case 3:
+			op.RWMin, op.RWMax = w0.Add(oneDec).String(), "0" // swapped bounds
+		case 4:
+			op.RWMin, op.RWMax = "nil", w0.String()
+		default:
+			op.RWMin, op.RWMax = "0", "100"
+		}
+		x.Apply(op)
+		x.Apply(Op{K: KBlock, Dt: op.ChInt*int64(1+g.intn("ud-k", 3)) + 1, Fees: g.fees()})
+		x.Apply(Op{K: KBlock, Dt: g.dt(), Fees: g.fees()})
 	case GRecreateAsset:
 		// an asset that has earned rewards (indices on its validators) is left by everybody, deleted
 		// and whitelisted again with a warm-up; new positions are opened during the warm-up on the
